@@ -1,4 +1,5 @@
 import AfkakProofs.Consumer.Trace
+import AfkakProps.Open.C13
 /-!
 # C13 — stop and shutdown leave nothing running and report once
 Property theorems only; helper lemmas live in `AfkakProofs/Consumer/`.
@@ -41,6 +42,52 @@ theorem C13_restartable (cfg : Cfg) (off : Int) (s : St) (h : s.startD = .none) 
   simp only [h, hr]
   refine ⟨?_, ?_⟩ <;> (repeat' split) <;> simp_all
 
+/-! ## Finding F26 (known, pinned by the suite): `shutdown()` from inside the processor -/
+
+/-- The witness: a consumer with a group; the processor of the second block calls `shutdown()` and
+    returns a Deferred; when the shutdown's commit is acknowledged the consumer stops and CANCELS that
+    Deferred instead of waiting for it.  (Same scenario as `corpus/consumer/f26-*.json`, replayed on the
+    implementation by every run of the check.) -/
+def f26Cfg : Cfg :=
+  { group := true, autoN := 0, autoS := 0, bufInit := 100, bufMax := none, retryInit := 1 / 4, retryMax := 2,
+    maxAttempts := 0, reset := none }
+def f26Script : List PEntry := [{ acts := [], res := .ok }, { acts := [.shutdown], res := .defer }]
+def f26Evs : List Ev :=
+  [.env (some (.kafka, 0)) (some (.kafka, 0)), .start 0, .fetchOk 0 { msgs := [{ off := 0, pid := 1 }], tail := .done }, .retryFire,
+   .fetchOk 1 { msgs := [{ off := 1, pid := 2 }], tail := .done }, .commitOk 2]
+
+/-- The code violates "graceful shutdown waits for in-progress processing" when `shutdown()` is called
+    from inside the processor. -/
+theorem C13_shutdown_waits_counterexample : ¬ Afkak.Props.Open.C13.C13_shutdown_waits_inproc := by
+  intro h
+  have h1 := h f26Cfg f26Script f26Evs
+  revert h1
+  decide +kernel
+
+/-- … and only then: on a trace in which `shutdown()` is never called from inside the processor the
+    monitor that judges this situation accepts. -/
+theorem C13_shutdown_waits_partial (group : Bool) (tr : List Item) (h : ∀ x ∈ tr, x ≠ .ob (.act .shutdown)) :
+    C13.shutdownInprocOk group tr = true := by
+  have key : ∀ l : List Item, (∀ x ∈ l, x ≠ .ob (.act .shutdown)) →
+      (runR (C13.shStep group true) {} l).bad = false ∧ (runR (C13.shStep group true) {} l).askedInProc = false ∧
+      (runR (C13.shStep group true) {} l).savedAskedInProc = false := by
+    intro l
+    induction l with
+    | nil => intro _; exact ⟨rfl, rfl, rfl⟩
+    | cons x l ih =>
+      intro hl
+      obtain ⟨h1, h2, h3⟩ := ih (fun y hy => hl y (List.mem_cons_of_mem _ hy))
+      have hx := hl x (List.mem_cons_self ..)
+      simp only [runR_cons]
+      generalize runR (C13.shStep group true) {} l = m at *
+      unfold C13.shStep
+      rcases x with e | e | o
+      · cases e <;> simp_all <;> (try split) <;> simp_all
+      · simp_all
+      · cases o <;> simp_all <;> (repeat' split) <;> simp_all
+  have := (key tr.reverse (by simpa using h)).1
+  simp [C13.shutdownInprocOk, accepts, HasBad.bad, this]
+
 end Afkak.Props.C13
 
 /- OBLIGATIONS
@@ -48,6 +95,13 @@ C13_start_fires_at_most_once
 C13_stop_leaves_nothing_fetching
 C13_stop_when_stopped
 C13_restartable
+C13_shutdown_waits_counterexample
+C13_shutdown_waits_partial
 -/
 /- OPEN_STATEMENTS
+C13_start_fires_once
+C13_quiescent_after_stop
+C13_shutdown_sequence
+C13_shutdown_waits_inproc
+C13_no_crash
 -/
